@@ -1,6 +1,10 @@
 package drivers
 
 import (
+	kvexecutor "github.com/evstack/ev-node/apps/testapp/kv"
+	coreexecutor "github.com/evstack/ev-node/core/execution"
+	dssync "github.com/ipfs/go-datastore/sync"
+	ds "github.com/ipfs/go-datastore"
 	"context"
 	"errors"
 	"fmt"
@@ -26,6 +30,7 @@ type syncRun struct {
 	full    *world.Node
 	ih      uint64
 	top     uint64
+	kv      bool // built on the reference key-value execution layer
 	// every p2pFaultEvery-th P2P delivery is preceded by one failing read of the P2P store (0 = never)
 	p2pFaultEvery int
 	p2pCount      int
@@ -49,18 +54,36 @@ func evKey(kind string, h uint64) string { return fmt.Sprintf("%s/%d", kind, h) 
 
 // buildChain produces the proposer chain with the real producer: block IH is the (empty)
 // genesis block, the following blocks carry the given tx lists.
+// syncKVMode: the next run is built on the reference key-value execution layer (apps/testapp/kv) instead of the
+// execution double's own state machine: transactions are "key=value" (unique keys per block, so that a state root
+// stands for exactly one history), every node has its own executor database that survives the node's crashes,
+// and a restarted node gets a new executor instance on that database.
+var syncKVMode bool
+
+func kvBackend(e *world.ExecDouble) {
+	db := dssync.MutexWrap(ds.NewMapDatastore())
+	e.Reopen = func() coreexecutor.Executor { return kvexecutor.VerifNewKVExecutor(db) }
+}
+
 func (s *syncRun) buildChain(shape [][]string) {
 	s.c.Tr.Emit("Phase", world.F{"name": "produce"})
 	s.seq = s.w.NewNode(world.NodeOpts{Name: "seq", Aggregator: true})
+	s.kv = syncKVMode
+	if s.kv {
+		kvBackend(s.seq.Exec)
+	}
 	s.seq.KV.Quiet = true
 	if err := s.seq.Start(context.Background()); err != nil {
 		panic(err)
 	}
 	s.seq.Step(context.Background())
-	for _, txs := range shape {
+	for bi, txs := range shape {
 		var bz [][]byte
 		for _, nm := range txs {
 			b := []byte("tx-" + nm)
+			if s.kv {
+				b = []byte(fmt.Sprintf("%s%d=%d", nm, bi, bi))
+			}
 			s.w.IDs.Name(b, nm)
 			bz = append(bz, b)
 		}
@@ -460,6 +483,9 @@ func newSyncRun(c *Ctx, run string, ih uint64, shape [][]string, cfg world.F) *s
 	s.buildChain(shape)
 	s.full = w.NewNode(world.NodeOpts{Name: "full", Aggregator: false, DAStart: 1, DABlockTime: time.Second, BlockTime: 100 * time.Millisecond})
 	s.full.Exec.ShareRoots(s.seq.Exec)
+	if s.kv {
+		kvBackend(s.full.Exec)
+	}
 	syncRunCount++
 	if syncRunCount%2 == 0 && s.full.KV != nil {
 		// every other run: the full node's datastore writes yield the processor before they land (as writes to a
@@ -678,8 +704,15 @@ func RunSyncCrashEnum(c *Ctx) {
 							continue
 						}
 						run := fmt.Sprintf("crash/ih%d/%s/m%d/k%d/n%d", ih, shapeName, mode, k, nested)
+						// every fourth configuration runs on the reference key-value execution layer with its own durable state
+						kvm := shapeName == "ShapeA" && (k+mode+int(ih))%2 == 0
+						if kvm {
+							run = "kv-" + run
+						}
 						synctest.Run(func() {
+							syncKVMode = kvm
 							s := newSyncRun(c, run, ih, shape, world.F{"src": "crashenum", "shape": shapeName})
+							syncKVMode = false
 							defer s.finish()
 							if s.startFull() != nil {
 								return
